@@ -138,6 +138,21 @@ package websocket
 //@           len(s.pendingFrames) == n0 + 1 && (*s.pendingFrames[n0])[0] == 136 && wireFrame(s, s.pendingFrames[n0])
 //@   ensures [close-no-payload] fin && op == 8 && plen == 0 && old(s.state) == StateActive ==>
 //@           int((*s.pendingFrames[n0])[1] & 127) == 2
+//@   // ... echoing the peer's status code (1000 if it sent none); server role shown, the client form is the same bytes XOR key
+//@   ensures [close-echo-server] fin && !big && op == 8 && old(s.state) == StateActive && s.role != RoleClient && plen == 0 ==>
+//@           int((*s.pendingFrames[n0])[2])*256 + int((*s.pendingFrames[n0])[3]) == 1000
+//@   ensures [close-one-byte] fin && op == 8 && plen == 1 && old(s.state) == StateActive && s.role != RoleClient ==>
+//@           int((*s.pendingFrames[n0])[1] & 127) == 2 && int((*s.pendingFrames[n0])[2])*256 + int((*s.pendingFrames[n0])[3]) == 1002
+//@   remember after call unicode/utf8.Valid: utf8ok = result
+//@   let pl = Frame.Payload(f)
+//@   let isClose = fin && !big && op == 8 && old(s.state) == StateActive && s.role != RoleClient
+//@   let codeOK = ValidCloseCode(CloseCode(int(pl[0])*256 + int(pl[1])))
+//@   ensures [close-bad-utf8] isClose && plen >= 2 && !utf8ok ==>
+//@           int((*s.pendingFrames[n0])[1] & 127) == 2 && int((*s.pendingFrames[n0])[2])*256 + int((*s.pendingFrames[n0])[3]) == 1002
+//@   ensures [close-bad-code] isClose && plen >= 2 && utf8ok && !codeOK ==>
+//@           int((*s.pendingFrames[n0])[1] & 127) == 2 && int((*s.pendingFrames[n0])[2])*256 + int((*s.pendingFrames[n0])[3]) == 1002
+//@   ensures [close-echo] isClose && plen >= 2 && utf8ok && codeOK ==>
+//@           int((*s.pendingFrames[n0])[1] & 127) == plen && (forall k :: 0 <= k && k < plen ==> (*s.pendingFrames[n0])[2 + k] == old(pl[k]))
 //@   // Close answering ours: the handshake is complete, nothing more is sent
 //@   ensures [close-ack] fin && !big && op == 8 && old(s.state) == StateClosedByUs ==> err == nil && s.state == StateCloseAcked && len(s.pendingFrames) == n0
 //@   ensures [order] forall j :: 0 <= j && j < n0 ==> s.pendingFrames[j] == old(s.pendingFrames[j])
